@@ -48,6 +48,8 @@ def run(chk):
     chk.rule("T02.5", "LATT centring is sound: the centring translations of the row's LATT number are pure translations of the group", 530)
     chk.rule("R02.1", "lookup by operations: the dictionary key and the query are canonicalised consistently", 2)
     chk.rule("R02.3", "LATT sign is sound: a positive LATT (expansion adds (-R,-t) for every operation) only when inversion at the origin belongs to the group", 1)
+    chk.rule("R02.6", "the object's centrosymmetric flag is the table's flag (or 'some operation has rotation -I'), and the LATT expansion adds "
+                      "the identity only when it is absent from the whole reduced list, so the expanded list is duplicate-free", 3)
     chk.rule("R02.4", "reduction tests the whole coset {+,-} x ({0} u T) against the kept list and works on a copy", 6)
     chk.rule("R02.5", "constructor selection: default choices exist, unknown choices raise, numbers are range-checked", 26)
 
@@ -153,6 +155,8 @@ def run(chk):
         r02_1(chk, sg, emit=True)
     if chk.want("R02.3"):
         r02_3(chk, sg, so, groups, fidx)
+    if chk.want("R02.6"):
+        r02_6(chk, sg, so, groups, fidx)
     if chk.want("R02.4"):
         r02_4(chk, so)
     if chk.want("R02.5"):
@@ -284,6 +288,58 @@ def r02_3(chk, sg, so, groups, fidx):
            "contain the inversion at the origin (expansion adds (-R,-t))", not bad, fingerprint="latt-sign",
            expected="flag => (-I, 0) in the row, for all rows",
            found=f"{len(bad)} settings have their inversion centre off the origin: {', '.join(bad)}")
+
+
+def r02_6(chk, sg, so, groups, fidx):
+    # (a) where does SpaceGroup.centrosymmetric come from?
+    q = "SpaceGroup.__init__"
+    iv = sg.ev(q)
+    chk.saw(SG, q)
+    st = [e for e in iv.events if e.kind == "store" and e.target.key() == "self.centrosymmetric"]
+    prop = sg.funcs.get("SpaceGroup.centrosymmetric")
+    if st:
+        chk.ob("R02.6", SG, q, "the flag is copied from the selected table row", all(e.value.key().endswith(".centrosymmetric") and
+               e.value.key().startswith("$sgdata") or e.value.key() == "sgdata.centrosymmetric" or ".centrosymmetric" in e.value.key() for e in st),
+               node=st[0].node, fingerprint="flag-source", found=[str(e.value) for e in st])
+    elif prop is not None:
+        pv = sg.ev("SpaceGroup.centrosymmetric")
+        chk.saw(SG, "SpaceGroup.centrosymmetric")
+        r = pv.returns[-1].value
+        ra = r.as_atom()
+        origin_only = bool(ra and ra[0] == "in" and ra[2].key() == "self.symmetry_operations" and
+                           ("identity().inverted()" in ra[1].key() or str(M.INVERSION) in ra[1].key()))
+        any_minus_I = "rotation" in r.key() and ("any(" in r.key())
+        if not origin_only and not any_minus_I:
+            raise AnalysisError(f"SpaceGroup.centrosymmetric: unrecognised definition {str(r)[:120]}")
+        bad = [rid for rid, (row, ops, codes) in groups.items() if row[fidx["centrosymmetric"]] and M.INVERSION not in codes]
+        chk.ob("R02.6", SG, "SpaceGroup.centrosymmetric", "the flag agrees with the operations: true exactly when some operation has rotation -I "
+               "(an inversion centre need not be at the origin)", any_minus_I or not bad, node=prop, fingerprint="flag-source",
+               expected="any(rotation == -I) or the table's flag",
+               found=f"membership of (-I, 0) only: false for {len(bad)} centrosymmetric settings whose centre is off the origin ({', '.join(bad[:6])}...)")
+    else:
+        raise AnalysisError("SpaceGroup.centrosymmetric is neither stored in __init__ nor a property")
+    # (b) identity insertion in expanded_symmetry_list
+    xv = so.ev("expanded_symmetry_list")
+    red = xv.param_names[0]
+    ins = [e for e in xv.events if e.kind == "call" and e.target is not None and e.target.key() in (f"<{red}@0>.append", f"{red}.append", f"<{red}@0>.insert", f"{red}.insert")
+           or (e.kind == "call" and e.target is not None and e.target.as_atom() and e.target.as_atom()[0] == "attr" and e.target.as_atom()[2] in ("append", "insert")
+               and red in e.target.key() and "identity" in str(e.extra.get("args")))]
+    ins = [e for e in ins if any("identity" in x.key() for x in e.extra["args"])]
+    chk.need(ins, "expanded_symmetry_list: insertion of the identity not found")
+    for e in ins:
+        okg = False
+        for c, pol in e.guards:
+            ca = c.as_atom()
+            if ca and ca[0] in ("notin", "in") and "identity" in ca[1].key() and red in ca[2].key() and "[" not in ca[2].key():
+                okg = (ca[0] == "notin") == pol
+        chk.ob("R02.6", SO, "expanded_symmetry_list", "the identity is added only when it is absent from the whole reduced list (membership test), "
+               "so no operation appears twice in the expansion", okg, node=e.node, fingerprint="identity-once",
+               expected="if identity not in reduced_symops", found=[("" if p else "not ") + str(c)[:80] for c, p in e.guards])
+    app = [e for e in xv.events if e.kind == "call" and e.target is not None and e.target.key().endswith("full_symops@1>.append") or
+           (e.kind == "call" and e.target is not None and ".append" in e.target.key() and "full_symops" in e.target.key())]
+    vals = [str(e.extra["args"][0]) for e in app]
+    chk.ob("R02.6", SO, "expanded_symmetry_list", "each reduced operation contributes itself and one translate per centring translation",
+           len(app) == 2 and all(e.loops for e in app) and len(app[0].loops) == 1 and len(app[1].loops) == 2, fingerprint="expansion", found=vals)
 
 
 def r02_4(chk, so):
